@@ -40,10 +40,15 @@ def filter_yaml(f, ind):
     return s
 
 
-def proc_yaml(p, limq, status, seth):
+def proc_yaml(p, limq, status, seth, extra):
     k, kind = p["key"], p["kind"]
     s = "  %s:\n" % k
-    if k in seth:
+    if k in extra["StRange"]:
+        s += "    processor: Filter\n    parameters:\n      - key: status_code_range\n        value: \"%d-%d\"\n" % tuple(extra["StRange"][k])
+    elif k in extra["RetryA"]:
+        s += ("    processor: Retry\n    parameters:\n      - key: attempts\n        value: %d\n      - key: cooldown_between_attempts_seconds\n        value: 0\n"
+              "      - key: cooldown_multiplier\n        value: 0\n" % extra["RetryA"][k])
+    elif k in seth:
         side, name, value = seth[k]
         s += ("    processor: TransformAPICall\n    parameters:\n      - key: set\n        value:\n          '$.%s.headers[\"%s\"]': \"%s\"\n"
               % ("request" if side == "req" else "response", name, value))
@@ -58,10 +63,10 @@ def proc_yaml(p, limq, status, seth):
     return s
 
 
-def flow_yaml(fl, limq, status, seth):
+def flow_yaml(fl, limq, status, seth, extra):
     s = "name: %s\nfilter:\n%sprocessors:\n" % (fl["name"], filter_yaml(fl, 2))
     for p in fl["procs"]:
-        s += proc_yaml(p, limq, status, seth)
+        s += proc_yaml(p, limq, status, seth, extra)
     s += "flow:\n"
     for d, key in (("request", "req"), ("response", "res")):
         if not fl[key]:
@@ -118,18 +123,34 @@ def rand_config(rng, n):
         q.update({"id": "q%d%d" % (n, i), "kind": kind, "max": rng.randint(1, 3), "w": rng.choice([4, 6, 8])})
         quotas.append(q)
     flows, limq, status, st, seth = [], {}, {}, 430, {}
+    extra = {"StRange": {}, "RetryA": {}}
+
+    def retry_side(k):
+        """response side  Filter(status 500-599) -hit-> Retry -retry/failed-> end  (the documented way to say which statuses are retried)"""
+        extra["StRange"][k("X")] = [500, 599]
+        extra["RetryA"][k("Y")] = rng.randint(1, 3)
+        return ([(k("X"), "Cond"), (k("Y"), "Retry")],
+                [fg.conn(fg.S("start"), fg.P(k("X"))), fg.conn(fg.P(k("X"), "hit"), fg.P(k("Y"))), fg.conn(fg.P(k("X"), "miss"), fg.S("end")),
+                 fg.conn(fg.P(k("Y"), "retry"), fg.S("end")), fg.conn(fg.P(k("Y"), "failed"), fg.S("end"))])
 
     def rset(key, side):
         # a TransformAPICall with one "set" rule on a request / response header; two names, so that rules of different processors
         # and flows meet on one header
         seth[key] = [side, rng.choice(["x-s1", "x-s2"] if side == "req" else ["x-r1", "x-r2"]), rng.choice(["a", "b", "c"])]
     used = set()
+    plan = []
     for i in range(rng.randint(1, 3)):
         path = rng.choice([p for p in PATHS if tuple(p) not in used] or PATHS)
         used.add(tuple(path))
+        tpl = rng.choice(["plain", "limplain", "set", "set", "retry"] if with_status else
+                         ["lim", "cond", "plain", "limcond", "set", "setcond", "retry", "limretry", "random", "random"])
+        plan.append((tpl, path))
+        if tpl in ("retry", "limretry") and rng.random() < 0.5:
+            # a second flow with its own Retry processor on the same url or on the whole host: both see the same sequences
+            plan.append(("retry", rng.choice([path, ["*"]])))
+    for i, (tpl, path) in enumerate(plan[:4]):
         name = "F%d%d" % (n, i)
-        k = lambda s: "%s%s" % (s, name)
-        tpl = rng.choice(["plain", "limplain", "set", "set"] if with_status else ["lim", "cond", "plain", "limcond", "set", "setcond", "random", "random"])
+        k = lambda s, name=name: "%s%s" % (s, name)
         if tpl == "random":
             # a random graph over 2-4 processors of all four kinds: fan-out, several answering processors, shared targets
             keys = [k(c) for c in "ABCD"[: rng.randint(2, 4)]]
@@ -144,6 +165,21 @@ def rand_config(rng, n):
                 sides = {d for d, conns in (("req", req), ("res", res)) for c in conns if key in (c["f"]["n"], c["t"]["n"])}
                 if kind == "Plain" and len(sides) == 1 and rng.random() < 0.7:
                     rset(key, sides.pop())
+        elif tpl == "retry":
+            # a plain request side, retries of failed responses on the response side
+            rp, rc = retry_side(k)
+            procs = [(k("P"), "Plain")] + rp
+            req = [fg.conn(fg.S("start"), fg.P(k("P"))), fg.conn(fg.P(k("P")), fg.S("end"))]
+            res = rc
+        elif tpl == "limretry":
+            # a Limiter with an answering above-limit branch in front, retries behind: every re-sent request is charged again
+            q = rng.choice(quotas)["id"]
+            rp, rc = retry_side(k)
+            procs = [(k("L"), "Lim"), (k("G"), "Gen")] + rp
+            limq[k("L")] = q
+            req = [fg.conn(fg.S("start"), fg.P(k("L"))), fg.conn(fg.P(k("L"), "above_limit"), fg.P(k("G"))),
+                   fg.conn(fg.P(k("L"), "below_limit"), fg.S("end"))]
+            res = [fg.conn(fg.P(k("G")), fg.S("end"))] + rc
         elif tpl == "set":
             # set rules on both sides, two in a row on the request side
             procs = [(k("S"), "Plain"), (k("T"), "Plain"), (k("R"), "Plain")]
@@ -201,10 +237,10 @@ def rand_config(rng, n):
                       for q in quotas]}
     model = {"cfg": cfg, "QKind": {q["id"]: q["kind"] for q in quotas}, "QMax": {q["id"]: q["max"] for q in quotas},
              "QW": {q["id"]: q["w"] for q in quotas}, "LimQ": limq or {"-": "-none-"}, "GenStatus": status or {"-": 0},
-             "SetH": seth or {"-": ["-", "-", "-"]}}
+             "SetH": seth or {"-": ["-", "-", "-"]}, "StRange": extra["StRange"] or {"-": [0, 0]}, "RetryA": extra["RetryA"] or {"-": 0}}
     files = {"quotas/quotas.yaml": quota_yaml(quotas)}
     for fl in flows:
-        files["flows/%s.yaml" % fl["name"]] = flow_yaml(fl, limq, status, seth)
+        files["flows/%s.yaml" % fl["name"]] = flow_yaml(fl, limq, status, seth, extra)
     conds = [p["key"] for fl in flows for p in fl["procs"] if p["kind"] == "Cond"]
     return model, files, conds
 
@@ -251,6 +287,7 @@ def rand_tx(rng, cfg, rich):
 def rand_history(rng, model, conds, n, hid):
     cfg = model["cfg"]
     rich = any(f["m"] or f["h"] or f["q"] for f in cfg["flows"] + cfg["quotas"])
+    retries = "-" not in model["RetryA"]
     now = rng.randint(2, 9)
     h = [{"ev": "reset", "now": now}]
     open_tx, k = [], 0
@@ -270,7 +307,12 @@ def rand_history(rng, model, conds, n, hid):
             open_tx.append((tid, method, url))
         elif x < 0.92:
             tid, method, url = open_tx.pop(rng.randrange(len(open_tx)))
-            h.append({"ev": "res", "id": tid, "method": method, "url": url, "status": rng.choice([200, 200, 404, 500])})
+            ev = {"ev": "res", "id": tid, "method": method, "url": url, "status": rng.choice([200, 200, 404, 500])}
+            if retries:
+                # the provider keeps failing for a while: statuses of its answers to the re-sent requests (used as far as the engine asks)
+                ev["status"] = rng.choice([200, 404, 500, 503, 503])
+                ev["chain"] = [rng.choice([503, 503, 500, 200, 404]) for _ in range(rng.choice([0, 1, 2, 3, 4]))]
+            h.append(ev)
         else:
             tid, method, url = open_tx.pop(rng.randrange(len(open_tx)))
             h.append({"ev": "err", "id": tid})
@@ -293,7 +335,7 @@ def spec_dir(ctx):
             for f in os.listdir(os.path.join(VERIF, "specs", sub)):
                 shutil.copy(os.path.join(VERIF, "specs", sub, f), d)
         for rel in ("c04_flow_graph/FlowGraphP.tla", "c01_fixed_window/FixedWindowP.tla", "c02_concurrency/ConcurrencyP.tla",
-                    "c03_filter_select/FilterP.tla", "c07_actions/ActionsP.tla"):
+                    "c03_filter_select/FilterP.tla", "c07_actions/ActionsP.tla", "c17_retry/RetryP.tla"):
             shutil.copy(os.path.join(VERIF, "specs", rel), d)
     return d
 
@@ -302,7 +344,7 @@ def execute(ctx, binary, scripts, tag):
     d = ctx.sub("run-" + tag)
     sp = os.path.join(d, "scripts.json")
     json.dump(scripts, open(sp, "w"))
-    ctx.run_harness(binary, ["run", sp, d], timeout=900)
+    ctx.run_harness(binary, ["run", sp, d], timeout=900, env={"LUNAR_RETRY_REQUEST_TIMEOUT_SEC": "100"})
     return [read_ndjson(os.path.join(d, "trace-%03d.ndjson" % i)) for i in range(len(scripts))]
 
 
@@ -384,7 +426,7 @@ def run(ctx):
         return validate(ctx, ev, "g%d" % i)
     res = parallel(one, list(enumerate(traces)), n=6)
     ctx.cov["states"] = max(1, ctx.cov["states"])
-    stats = {"tx": 0, "refused": 0, "early": 0, "multi": 0, "rich": 0}
+    stats = {"tx": 0, "refused": 0, "early": 0, "multi": 0, "resent": 0, "retry_failed": 0, "g6_retry_on_early_response": 0}
     for (acc, rejected, rounds), ev, sc in zip(res, traces, scripts):
         cfg, hs = split_histories(ev)
         ctx.cov["traces_validated_against_impl"] += acc
@@ -397,6 +439,9 @@ def run(ctx):
             stats["refused"] += sum(1 for e in txs for s in e.get("seq", []) if s.get("out") == "above_limit")
             stats["early"] += sum(1 for e in txs if e.get("status", 0))
             stats["multi"] += sum(1 for e in txs if len({s["flow"] for s in e.get("seq", []) if not s.get("sid")}) > 1)
+            stats["resent"] += sum(1 for e in txs if e.get("resent") and e["dir"] == "req")
+            stats["retry_failed"] += sum(1 for e in txs for s in e.get("seq", []) if s.get("out") == "failed")
+            stats["g6_retry_on_early_response"] += sum(1 for e in txs if e["dir"] == "req" for s in e.get("seq", []) if s.get("out") in ("retry", "failed"))
             if refused and early:
                 ctx.cov["distinct_nontrivial"] += 1
         for rej in rejected:
@@ -413,7 +458,7 @@ def run(ctx):
     ctx.cov["states"] = max(1, ctx.cov["traces_validated_against_impl"])
     ctx.cov["gateway_stats"] = stats
     ctx.notes.append("states/transitions here are trace-validation counts (histories / transactions), no exhaustive run belongs to the composition itself")
-    if stats["refused"] == 0 or stats["early"] == 0 or stats["multi"] == 0:
+    if min(v for k, v in stats.items() if not k.startswith("g6")) == 0:
         raise Broken("vacuous run: %s" % stats)
 
 
@@ -422,12 +467,20 @@ def slim(e):
 
 
 def script_of(hist):
-    out = []
-    for e in hist:
+    """the script that produced a recorded history (re-sent transactions are the executor's own doing: they become the `chain` of the
+    response that asked for the first retry)"""
+    out, chains = [], {}
+    for i, e in enumerate(hist):
         if e["ev"] == "reset":
             out.append({"ev": "reset", "now": e["now"]})
         elif e["ev"] == "adv":
             out.append({"ev": "adv", "d": e["d"]})
+        elif e["ev"] == "tx" and e.get("resent"):
+            root = e["id"].split(".r")[0]
+            if e["dir"] == "req":
+                chains[root]["chain"].append(200)           # a re-send was attempted; its status follows if it went to the provider
+            else:
+                chains[root]["chain"][-1] = e["x"]["status"]
         elif e["ev"] == "tx" and e["dir"] == "req":
             x = e["x"]
             out.append({"ev": "req", "id": e["id"], "sq": e.get("sq", e["id"]), "method": x["method"], "url": x["url"], "qry": x["qry"],
@@ -435,7 +488,8 @@ def script_of(hist):
         elif e["ev"] == "tx":
             x = e["x"]
             out.append({"ev": "res", "id": e["id"], "sq": e.get("sq", e["id"]), "method": x["method"], "url": x["url"], "status": x["status"],
-                        "hdr": {k: v for k, v in x["hdr"]}, "body": e.get("body", "")})
+                        "hdr": {k: v for k, v in x["hdr"]}, "body": e.get("body", ""), "chain": []})
+            chains[e["id"]] = out[-1]
         elif e["ev"] == "err":
             out.append({"ev": "err", "id": e["id"]})
     return out
